@@ -11,6 +11,7 @@ pub mod c15;
 pub mod c13;
 pub mod c16;
 pub mod c18;
+pub mod c17;
 use crate::Ctx;
 pub fn run(prop: &str, ctx: &mut Ctx) -> bool {
     match prop {
@@ -32,6 +33,7 @@ pub fn run(prop: &str, ctx: &mut Ctx) -> bool {
         "C13" => c13::run(ctx),
         "C16" => c16::run(ctx),
         "C18" => c18::run(ctx),
+        "C17" => c17::run(ctx),
         _ => return false,
     }
     true
